@@ -251,7 +251,7 @@ Qed.
 
 Section ReadAll.
   Variable grow : Z -> Z.
-  Hypothesis Hgrow : forall c, c < grow c.
+  Hypothesis Hgrow : forall c, 0 < c -> c < grow c.
 
   Lemma readall_loop_cread t : forall fuel cs n b cap,
     chunks_ok cs -> zlen b < cap -> (length (concat cs) + 1 <= fuel)%nat ->
@@ -292,7 +292,7 @@ Section ReadAll.
           -- set (cap' := if zlen (b ++ c) =? cap then grow cap else cap).
              destruct (IH rest (n - zlen c) (b ++ c) cap' Hrest) as (cs' & n' & He & Hc' & Hok').
              { unfold cap'. rewrite zlen_app. destruct (Z.eqb_spec (zlen b + zlen c) cap).
-               - specialize (Hgrow cap). lia.
+               - pose proof (zlen_nonneg b). specialize (Hgrow cap). lia.
                - lia. }
              { cbn [concat] in Hfuel. rewrite app_length in Hfuel. unfold zlen in Hc. lia. }
              exists cs', n'.
@@ -314,7 +314,7 @@ Section ReadAll.
           destruct (IH (skipn (Z.to_nat k') c :: rest) (n - k') (b ++ d) cap') as (cs' & n' & He & Hc' & Hok').
           { constructor; auto. rewrite zlen_skipn by lia. lia. }
           { unfold cap'. rewrite zlen_app, Hd. destruct (Z.eqb_spec (zlen b + k') cap).
-            - specialize (Hgrow cap). lia.
+            - pose proof (zlen_nonneg b). specialize (Hgrow cap). lia.
             - lia. }
           { cbn [concat] in *. rewrite app_length in *. rewrite skipn_length.
             unfold zlen in Hbig. lia. }
